@@ -24,6 +24,15 @@
      [e |-> "start", a] [e |-> "end", a]   TickStart / TickEnd
      [e |-> "pn", c, a, b]  [e |-> "pc", c, a, b, p, q]  [e |-> "po", c, a, b]
      [e |-> "in", c, v]     [e |-> "o", s, c, a, b]
+   Every emitted event also carries what the accessors of the reader report right after the call
+   that returned it, as the *difference* to the call before:
+     dp = <<[c |-> cid, v |-> <<x, y>> | <<>>], ...>>   Reader::player_pos(cid) that changed (<<>> = now None)
+     di = <<[c |-> cid, v |-> <<10 ints>>], ...>>       Reader::input(cid) that changed
+     mc = Reader::cids().end - 1                        (detailed level only)
+   sorted by cid.  The property says "player positions and inputs equal the running sums of the
+   recorded differences": the sums are per client id, and no record other than the player / input
+   records of that client id touches them (doc/teehistorian.md: all other messages, extension
+   messages included, carry no position data).
 *)
 EXTENDS Integers, Sequences, FiniteSets, TLC, SequencesExt
 
@@ -117,17 +126,40 @@ IsData(it) == it.k \in {"pn", "pd", "po", "in", "id", "o"}
 \* functions cid -> value), end ("" while running, "fin", or "err:<class>")
 NoCid == MinInt
 Rd0 == [tick |-> 0, prev |-> NoCid, inTick |-> FALSE, la |-> FALSE, idx |-> 1,
-        players |-> <<>>, inputs |-> <<>>, end |-> ""]
+        players |-> <<>>, inputs |-> <<>>, mc |-> -1, end |-> ""]
 NoOut == [e |-> "none"]
 FnRemove(f, c) == [d \in (DOMAIN f) \ {c} |-> f[d]]
 FnPut(f, c, v) == [d \in (DOMAIN f) \cup {c} |-> IF d = c THEN v ELSE f[d]]
+
+\* what the accessors report: difference between two partial functions cid -> value, sorted by cid
+FnGet(f, c) == IF c \in DOMAIN f THEN f[c] ELSE <<>>
+DeltaOf(f, g) ==
+  LET D == {c \in (DOMAIN f) \cup (DOMAIN g) : FnGet(f, c) # FnGet(g, c)}
+      s == SetToSortSeq(D, LAMBDA x, y : x < y)
+  IN  [i \in 1..Len(s) |-> [c |-> s[i], v |-> FnGet(g, s[i])]]
+NoDelta == [dp |-> <<>>, di |-> <<>>]
+DeltaFields == {"dp", "di", "mc"}
+Core(ev) == [f \in (DOMAIN ev) \ DeltaFields |-> ev[f]]
+WithDelta(out, pl0, pl1, in0, in1) == out @@ [dp |-> DeltaOf(pl0, pl1), di |-> DeltaOf(in0, in1)]
+
+\* which records carry a client id for Reader::cids() (format/item.rs Item::cid): the player and
+\* input records and the pass-through records whose first member is a *client* id (not a team)
+SubHasCid(s) == s \in {"msg", "join", "drop", "cc", "x_auth_init", "x_auth_login", "x_auth_logout",
+                        "x_ddnetver", "x_ddnetver_old", "x_joinver6", "x_joinver7", "x_player_finish",
+                        "x_player_name", "x_player_ready", "x_player_rejoin", "x_player_team"}
+ItemHasCid(it) == it.k \in {"pn", "pd", "po", "in", "id"} \/ (it.k = "o" /\ SubHasCid(it.s))
+\* cids() is 0 .. max_cid + 1; named deviation of the code as it is: with max_cid = 2^31 - 1 the
+\* accessor overflows (panics in builds with overflow checks): observed as -2
+CidsOverflow_KnownBug(mc) == mc = MaxInt
+McSeen(mc) == IF CidsOverflow_KnownBug(mc) THEN -2 ELSE mc
 
 Err(st, cls) == [st |-> [st EXCEPT !.end = "err:" \o cls], out |-> NoOut]
 Ret(st, out) == [st |-> st, out |-> out]
 
 \* the payload of items[idx] is decoded and interpreted (raw.rs, after `buffer.read_item`)
 Consume(st, it) ==
-  LET st1 == [st EXCEPT !.idx = @ + 1, !.la = FALSE] IN
+  LET st1 == [st EXCEPT !.idx = @ + 1, !.la = FALSE,
+                        !.mc = IF ItemHasCid(it) /\ it.c > @ THEN it.c ELSE @] IN
   CASE it.k = "ts" ->
          IF it.a < 0 THEN Err(st1, "negative_dt")
          ELSE IF st.tick > MaxInt - 1 - it.a THEN Err(st1, "tick_overflow")
@@ -178,7 +210,7 @@ Boundary(st, it) ==
 UnknownKind(S, it) == it.k = "bad" \/ (it.k = "o" /\ IsEx(it.s) /\ S.ver = 1)
 
 \* one Reader::read call; S is the stream descriptor
-Call(S, st) ==
+Call0(S, st) ==
   IF st.idx > Len(S.items) THEN Err(st, "unexpected_end")
   ELSE LET it == S.items[st.idx]
            last == st.idx = Len(S.items) IN
@@ -195,6 +227,12 @@ Call(S, st) ==
          IF last /\ S.cut = 1 THEN Err([st EXCEPT !.la = TRUE], "unexpected_end")
          ELSE Consume(st, it)
 
+\* ... together with what the accessors report after it
+Call(S, st) ==
+  LET r == Call0(S, st) IN
+  IF r.out = NoOut THEN r
+  ELSE [r EXCEPT !.out = WithDelta(@, st.players, r.st.players, st.inputs, r.st.inputs) @@ [mc |-> McSeen(r.st.mc)]]
+
 \* bytes of the item part of the stream this call needs beyond what earlier calls consumed:
 \* <<message-id bytes, payload bytes>>; "inf" = more than the stream holds (truncated)
 Inf == 1000000000
@@ -206,6 +244,48 @@ CallNeed(S, st) ==
        IF kn = Inf \/ (~st.la /\ UnknownKind(S, it)) THEN <<kn, 0>>
        ELSE IF Boundary(st, it) # "none" THEN <<kn, 0>>
        ELSE <<kn, IF last /\ S.cut = 1 THEN Inf ELSE RLen(it)>>
+
+\* ---------------------------------------------------------------- the header (doc/teehistorian.md)
+\* "The header starts with the teehistorian UUID (699db17b-8efb-34ff-b1d8-da6f60c15dd1) ... (16
+\* bytes).  It is followed by a null-terminated string that contains a JSON object containing at
+\* least the key `version` ... It must be "1" or "2" for this document."
+\* A header is described by a record (the harness renders it; JSON text is not parsed in TLA+):
+\*   magic  the first 16 bytes as written               nul   the terminating NUL is there
+\*   hl     length of the header in bytes (NUL included) as rendered (bound by the recorded reads)
+\*   ver    value of "version"                          vtext how it is spelled (see VersionText)
+\*   mal    "" or the one thing that is wrong with the JSON text / one of its members
+\*   var    a benign variation of the text (see HdrVars) num  "mid" | "min" | "max": port, size, crc
+Magic == <<105, 157, 177, 123, 142, 251, 52, 255, 177, 216, 218, 111, 96, 193, 93, 209>>
+MagicLen == 16
+HdrMalJson == {"utf8", "syntax", "trailing"}                          \* not a JSON text at all
+HdrMalData == {"notobj", "missing", "type", "cfgtype", "dup", "sha"}  \* JSON, but not this object
+HdrMalField == {"game_uuid", "start_time", "server_port", "map_size", "map_crc"}
+HdrMals == {""} \cup HdrMalJson \cup HdrMalData \cup HdrMalField
+\* spellings of the version number: the library parses it with Rust's i32 parser ("+2" and "02"
+\* are read as 2 although the document only knows "1" and "2": lenient, kept as it is)
+VersionTexts == {"plain", "plus", "zero", "space", "empty", "word", "big"}
+VersionReadable(vt) == vt \in {"plain", "plus", "zero"}
+HdrVars == {"plain", "esc", "extra", "ws", "sha", "nocfg", "manycfg"}
+HdrNameLen(var) == IF var = "esc" THEN 7 ELSE 3
+HdrNCfg(var) == CASE var = "nocfg" -> 0 [] var = "manycfg" -> 40 [] OTHER -> 1
+HdrTime == 1506244953        \* 2017-09-24 11:22:33 +02:00 in either spelling
+
+\* the order in which the library finds fault (format/mod.rs read_header, raw.rs from_header)
+HdrOutcome(hd) ==
+  IF hd.magic # Magic THEN "err:header:wrong_magic"
+  ELSE IF ~hd.nul THEN "need"
+  ELSE IF hd.mal \in HdrMalJson THEN "err:header:malformed_json"
+  ELSE IF hd.mal \in HdrMalData THEN "err:header:malformed_header"
+  ELSE IF ~VersionReadable(hd.vtext) THEN "err:header:malformed_version"
+  ELSE IF hd.mal \in HdrMalField THEN "err:header:malformed_" \o hd.mal
+  ELSE IF hd.ver \notin {1, 2} THEN "err:unknown_version"
+  ELSE "ok"
+\* what the library extracts from a good header
+HdrEvent(hd) ==
+  [e |-> "hdr", ver |-> hd.ver, time |-> HdrTime, num |-> hd.num, name |-> HdrNameLen(hd.var),
+   ncfg |-> HdrNCfg(hd.var) + (IF hd.pad > 0 THEN 1 ELSE 0), sha |-> hd.var = "sha"]
+\* bytes Reader::new needs before it returns: the magic is judged as soon as 16 bytes are there
+HdrNeed(hd) == IF hd.magic # Magic THEN MagicLen ELSE IF ~hd.nul THEN Inf ELSE hd.hl
 
 \* the whole event sequence (reference: by construction a function of the stream only)
 RECURSIVE ReadFrom(_, _, _, _)
@@ -224,7 +304,7 @@ Read(S) == ReadFrom(S, Rd0, <<>>, 3 * Len(S.items) + 3)
 \*  every data event must be the next data item of the stream, announced inside the tick the
 \*  documentation assigns, carrying the summed values.
 Pr0 == [ok |-> TRUE, why |-> "", open |-> FALSE, cur |-> -1, last |-> -1,
-        j |-> 1, dtick |-> 0, ic |-> NoCid, pl |-> <<>>, inp |-> <<>>]
+        j |-> 1, dtick |-> 0, ic |-> NoCid, pl |-> <<>>, inp |-> <<>>, lastc |-> NoCid]
 
 \* documentation pseudo-code, one message
 DocStep(p, it) ==
@@ -309,19 +389,44 @@ SkipTs(items, p) ==
   IF p.j <= Len(items) /\ items[p.j].k = "ts"
   THEN SkipTs(items, [DocStep(p, items[p.j]) EXCEPT !.j = p.j + 1]) ELSE p
 
+\* An arbitrary byte stream (S.ver = 0: corrupted, the items are not known): what the user relies
+\* on can still be judged on the events alone.  The reported values must be *self-consistent*
+\* running sums (a change / disappearance reports as old position what the last event of that
+\* client id reported as position; no change of an absent, no appearance of a present player);
+\* two player records inside one tick have strictly increasing client ids (the documentation
+\* puts a record with a lower or equal id into the next tick); and the accessors report
+\* exactly what the events reported.
+PSelf(p, ev) ==
+  LET c == IF "c" \in DOMAIN ev THEN ev.c ELSE NoCid
+      isP == ev.e \in {"pn", "pc", "po"}
+      pl1 == CASE ev.e = "pn" -> FnPut(p.pl, c, <<ev.a, ev.b>>)
+               [] ev.e = "pc" -> FnPut(p.pl, c, <<ev.a, ev.b>>)
+               [] ev.e = "po" -> FnRemove(p.pl, c)
+               [] OTHER -> p.pl
+      in1 == IF ev.e = "in" THEN FnPut(p.inp, c, ev.v) ELSE p.inp
+  IN
+  IF isP /\ p.lastc # NoCid /\ c <= p.lastc THEN Bad(p, "ticks:not-as-documented")
+  ELSE IF ev.e = "pn" /\ c \in DOMAIN p.pl THEN Bad(p, "sums:wrong-value")
+  ELSE IF ev.e \in {"pc", "po"} /\ c \notin DOMAIN p.pl THEN Bad(p, "sums:wrong-value")
+  ELSE IF ev.e = "pc" /\ p.pl[c] # <<ev.p, ev.q>> THEN Bad(p, "sums:wrong-value")
+  ELSE IF ev.e = "po" /\ p.pl[c] # <<ev.a, ev.b>> THEN Bad(p, "sums:wrong-value")
+  ELSE IF ev.dp # DeltaOf(p.pl, pl1) \/ ev.di # DeltaOf(p.inp, in1) THEN Bad(p, "sums:query-differs")
+  ELSE [p EXCEPT !.pl = pl1, !.inp = in1, !.lastc = IF isP THEN c ELSE @]
+
 \* one observed event
 PStep(S, p0, ev) ==
   IF ~p0.ok THEN p0
+  ELSE IF ev.e \in {"start", "end"} /\ (ev.dp # <<>> \/ ev.di # <<>>) THEN Bad(p0, "sums:query-differs")
   ELSE IF ev.e = "start" THEN
          IF p0.open THEN Bad(p0, "nesting:start-inside-tick")
          ELSE IF ev.a <= p0.last THEN Bad(p0, "nesting:tick-not-increasing")
-         ELSE [p0 EXCEPT !.open = TRUE, !.cur = ev.a, !.last = ev.a]
+         ELSE [p0 EXCEPT !.open = TRUE, !.cur = ev.a, !.last = ev.a, !.lastc = NoCid]
   ELSE IF ev.e = "end" THEN
          IF ~p0.open THEN Bad(p0, "nesting:end-outside-tick")
          ELSE IF ev.a # p0.cur THEN Bad(p0, "nesting:end-of-other-tick")
          ELSE [p0 EXCEPT !.open = FALSE]
-  ELSE IF S.ver = 0 THEN      \* unknown (corrupted) stream: only the nesting can be judged
-         IF ~p0.open THEN Bad(p0, "nesting:item-outside-tick") ELSE p0
+  ELSE IF S.ver = 0 THEN      \* unknown (corrupted) stream
+         IF ~p0.open THEN Bad(p0, "nesting:item-outside-tick") ELSE PSelf(p0, ev)
   ELSE LET p == SkipTs(S.items, p0) IN
        IF p.j > Len(S.items) \/ ~IsData(S.items[p.j]) THEN Bad(p, "item:not-in-stream")
        ELSE LET it == S.items[p.j]
@@ -330,8 +435,10 @@ PStep(S, p0, ev) ==
                 want == x.out IN
             IF ~p.open THEN Bad(p, "nesting:item-outside-tick")
             ELSE IF want = NoOut \/ ev.e # want.e THEN Bad(p, "item:not-in-stream")
-            ELSE IF ev # want THEN Bad(p, IF ev.e \in {"pc", "po", "in"} THEN "sums:wrong-value" ELSE "item:altered")
+            ELSE IF Core(ev) # want THEN Bad(p, IF ev.e \in {"pc", "po", "in"} THEN "sums:wrong-value" ELSE "item:altered")
             ELSE IF p.cur # d.dtick THEN Bad(p, "ticks:not-as-documented")
+            \* the accessors report the running sums: only this record's client id changed
+            ELSE IF ev.dp # DeltaOf(p.pl, x.pl) \/ ev.di # DeltaOf(p.inp, x.inp) THEN Bad(p, "sums:query-differs")
             ELSE [d EXCEPT !.j = p.j + 1, !.pl = x.pl, !.inp = x.inp]
 
 \* the end of a run: "fin" is legal only when every data item of a complete, semantically
